@@ -61,4 +61,18 @@ theorem preg_bbox_polygon (g : Polygon ℚ) (i : Include) (e : ℚ × ℚ × ℚ
     (PReg.polygon g i).bbox = FormulasC04.polygon_bounding_box e.2.1 e.1 e.2.2.2 e.2.2.1 := by
   simp only [PReg.bbox, he]; rfl
 
+
+/-- which attributes each translated function reads (a rename such as `vertices` → `_vertices`
+keeps the arithmetic but changes this list). -/
+theorem reads_eq :
+    FormulasC04.circle_bounding_box_reads = ["self_center_x", "self_center_y", "self_radius"] ∧
+    FormulasC04.rectangle_bounding_box_reads = ["self_angle_c", "self_angle_s", "self_center_x", "self_center_y", "self_height", "self_width"] ∧
+    FormulasC04.line_bounding_box_reads = ["self_end_x", "self_end_y", "self_start_x", "self_start_y"] ∧
+    FormulasC04.point_bounding_box_reads = ["self_center_x", "self_center_y"] ∧
+    FormulasC04.ellipse_bounding_box_reads = ["self_angle_c", "self_angle_s", "self_center_x", "self_center_y", "self_height", "self_width", "sqrtF"] ∧
+    FormulasC04.polygon_bounding_box_reads = ["self_vertices_x_max", "self_vertices_x_min", "self_vertices_y_max", "self_vertices_y_min"] ∧
+    FormulasC04.compound_bounding_box_reads = ["self_region1_bounding_box", "self_region2_bounding_box"] ∧
+    FormulasC04.annulus_bounding_box_reads = ["self__outer_region_bounding_box"] :=
+  ⟨rfl, rfl, rfl, rfl, rfl, rfl, rfl, rfl⟩
+
 end RegionsVerif.Bridge.C04
